@@ -143,11 +143,16 @@ pub fn run(opts: &HashMap<String, String>) -> i32 {
                 Ok(e) if *e != exp_err => why = Some(format!("result err={} expected {}", e, exp_err)),
                 _ => {}
             }
-            if why.is_none() && s.received != exp_sunk {
-                why = Some("sink content differs".to_string());
+            // WHEN the sink is called is the design's business (a different flush policy keeps C11); what the
+            // property fixes is the result of every call and, without sink failures, that a completed flush / drop
+            // has delivered everything written. Other differences from the model are reported as design drift.
+            let no_failure_scripted = !hist[..=j].iter().any(|h| h[0] == "sink" && h[1] == "err");
+            if why.is_none() && no_failure_scripted && s.unscripted == 0 && matches!(op, "flush" | "flush_defer" | "drop") && s.received != written {
+                why = Some("after flush/drop the sink has not received exactly the written bytes".to_string());
             }
-            if why.is_none() && (!s.queue.is_empty() || s.unscripted > 0) {
-                why = Some(format!("sink calls differ: {} scripted answers unused, {} unscripted calls", s.queue.len(), s.unscripted));
+            if why.is_none() && (s.received != exp_sunk || !s.queue.is_empty() || s.unscripted > 0) {
+                drift += 1;
+                failed = true; // the script no longer fits this implementation: stop this behaviour quietly
             }
             if let Some(what) = why {
                 if mismatches.len() < 5 {
